@@ -147,8 +147,14 @@ def remove_all(ctx, rule="R-REMOVE-ALL"):
             rebuilt = [e for _, e in r.effects() if e.kind == "store" and (e.target == F or (e.target[0] == "sub" and e.target[1] == F and e.target[2][0] == "slice"))
                        and e.value[0] == "comp"]
             if rebuilt:
-                verdict = True if verdict is None else verdict
-                continue
+                # rebuilding the registry from a snapshot (rebinding the field or assigning the whole slice) is not an in-place removal:
+                # add_timer / subscribe on another thread (application thread vs. timer callback) between the snapshot and the
+                # assignment is silently undone
+                verdict = False
+                why = "the registry is rebuilt from a snapshot and assigned back: a registration added by another thread in between is lost " \
+                      "(add_timer returns normally, the callback never fires)"
+                node = rebuilt[0].node
+                break
             rem = [(i, e) for i, e in r.effects() if e.kind == "call" and e.value[1] in (("attr", F, "remove"), ("attr", F, "pop"))]
             if not rem:
                 continue
@@ -163,7 +169,13 @@ def remove_all(ctx, rule="R-REMOVE-ALL"):
                 verdict = False
                 why = "removal happens while iterating the live list: every second adjacent match survives"
             elif src[0] in ("call", "sub") and contains(src, F):
-                verdict = True if verdict is None else verdict   # iteration over a copy (list(x), x[:], x.copy())
+                # iteration over a copy (list(x), x[:], x.copy()) - and the loop goes on after a removal (no break / return)
+                went_on = any(rec.ev.kind == "for" and rec.ev.pol in ("exhaust", "iter") for rec in r.recs[i + 1:]) or r.term == "cut"
+                if not went_on and r.term in ("fall", "return"):
+                    verdict = False
+                    why = "the loop is left after the first registration it removed: further registrations of the same callback stay active"
+                    break
+                verdict = True if verdict is None else verdict
             else:
                 verdict = verdict
         if verdict is None:
@@ -392,3 +404,44 @@ def _shape(c):
             return None
         return mk_cmp(c[1], a, b)
     return None
+
+
+def wake_nonblocking(ctx, rule="R-WAKE-NONBLOCK"):
+    """posting a wake-up token can never block: the queue is unbounded, or the put is non-blocking.  The job thread is the only consumer
+    of the tokens and also posts them (timer callbacks that add timers, re-entrant replies): a blocking put on a full queue stops it for good"""
+    P = ctx.prog
+    init = P.func(ECU, "__init__")
+    wake = P.func(ECU, "_job_thread_wakeup")
+    unbounded = None
+    qfield = None
+    # which field does the wake-up put into?
+    for n in ast.walk(wake.node):
+        if isinstance(n, ast.Call) and isinstance(n.func, ast.Attribute) and n.func.attr in ("put", "put_nowait") and isinstance(n.func.value, ast.Attribute):
+            qfield = n.func.value.attr
+            putcall = n
+    if qfield is None:
+        ctx.unknown(rule, "no queue put in %s" % wake.qual)
+        return
+    for n in ast.walk(init.node):
+        if isinstance(n, ast.Assign) and any(isinstance(t, ast.Attribute) and t.attr == qfield for t in n.targets) and isinstance(n.value, ast.Call):
+            c = n.value
+            name = c.func.attr if isinstance(c.func, ast.Attribute) else c.func.id if isinstance(c.func, ast.Name) else None
+            if name in ("Queue", "SimpleQueue", "LifoQueue"):
+                size = c.args[0] if c.args else next((k.value for k in c.keywords if k.arg == "maxsize"), None)
+                if name == "SimpleQueue" or size is None:
+                    unbounded = True
+                else:
+                    v = P.const_eval(size, init.mod, init.cls)
+                    unbounded = isinstance(v, int) and v <= 0
+                qnode = n
+    inst = "the wake-up of the job thread cannot block"
+    if unbounded is None:
+        ctx.unknown(rule, "construction of %s not found in %s" % (qfield, init.qual))
+        return
+    nonblocking = putcall.func.attr == "put_nowait" or any(k.arg == "block" and isinstance(k.value, ast.Constant) and k.value.value is False for k in putcall.keywords) \
+        or (len(putcall.args) > 1 and isinstance(putcall.args[1], ast.Constant) and putcall.args[1].value is False)
+    if unbounded or nonblocking:
+        ctx.holds(rule, inst, "unbounded queue" if unbounded else "non-blocking put")
+    else:
+        ctx.violated(rule, init, inst, "the wake-up queue is bounded and %s blocks when it is full: the job thread, the only consumer of the tokens, posts tokens "
+                     "itself (timer callbacks, re-entrant replies) and stops for good on its own put once enough tokens are pending" % ast.unparse(putcall)[:50], qnode)
